@@ -262,3 +262,109 @@ class GatherIfNecessaryBody:
 
     def post_positions_are_kept(results_and_awaitable_results, result):
         return result == item_values(results_and_awaitable_results)
+
+
+# ---- gather_if_necessary: own body for a list of ANY length (loop invariant + theory of filtered sequences) ---------------
+from pyvc.values import Obj as _Obj, mk_b as _mk_b, mk_i as _mk_i, sv_bool as _sv_bool  # noqa: E402
+from specs.ghost import count_awaitables_before  # noqa: E402
+
+
+def _mixed_item(ex, st, name, i):
+    """generic item of the heterogeneous list: awaitable or not (symbolic), with the value it stands for when awaited"""
+    return ex.alloc(st, _Obj("MixedItem", {"aw": SV(_mk_b(ex.fresh(name + ".awaitable", z3.BoolSort())), "bool"),
+                                           "val": ahb_result().make(ex, st, name + ".awaited")}, tag=name))
+
+
+def _is_mixed(st, v):
+    return isinstance(v, Ref) and isinstance(st.heap.get(v.oid), _Obj) and st.heap[v.oid].cls == "MixedItem"
+
+
+def _isawaitable_sym(ex, st, args, kwargs, fn):
+    assumed.used(ex, "A-STDLIB inspect.iscoroutinefunction / isawaitable are pure predicates")
+    if _is_mixed(st, args[0]):
+        return [(st, st.heap[args[0].oid].fields["aw"])]
+    return [(st, _sv_bool(isinstance(args[0], CoroV)))]
+
+
+assumed.LIBRARY["inspect.isawaitable"] = _isawaitable_sym
+
+
+def _await_mixed(ex, st, ref):
+    """awaiting an awaitable item yields the value it stands for, or raises (the awaitable is user code)"""
+    return [ex.raise_(st.fork(), "Exception", None), (st, st.heap[ref.oid].fields["val"])]
+
+
+assumed.AWAIT_HOOKS["MixedItem"] = _await_mixed
+
+
+def _g_item_values_sym(ex, st, args, kwargs, fn):
+    lt = ex.as_lt(st, args[0])
+    if lt.is_concrete():
+        return _g_item_values(ex, st, args, kwargs, fn)
+
+    def f(item, binders):
+        if not _is_mixed(st, item):
+            raise L.ShapeMismatch("item_values of a list whose items are not mixed items")
+        aw = Sc.bv(st.heap[item.oid].fields["aw"].t)
+        return L.LT([L.Guard(aw, L.LT([L.Unit(st.heap[item.oid].fields["val"])])),
+                     L.Guard(z3.Not(aw), L.LT([L.Unit(item)]))])
+    return [(st, ex.alloc(st, ListObj(L.lt_map(lt, f))))]
+
+
+assumed.LIBRARY["ghost.item_values"] = _g_item_values_sym
+
+
+def _g_count_awaitables_before(ex, st, args, kwargs, fn):
+    """ghost: cnt(k) of the filtered sequence [x for x in items if isawaitable(x)] (pyvc/listtheory.py)"""
+    from pyvc.values import Unsupported
+    lt = ex.as_lt(st, args[0])
+    k = args[1]
+    if lt.is_concrete():
+        if not z3.is_int_value(z3.simplify(Sc.iv(k.t))):
+            raise Unsupported("count_awaitables_before of a concrete list at a symbolic index")
+        kk = z3.simplify(Sc.iv(k.t)).as_long()
+        return [(st, SV(_mk_i(sum(1 for x in lt.concrete_items()[:kk] if isinstance(x, CoroV))), "int"))]
+    if not (len(lt.segs) == 1 and isinstance(lt.segs[0], L.MapSeg) and len(lt.segs[0].body.segs) == 1
+            and isinstance(lt.segs[0].body.segs[0], L.Unit) and _is_mixed(st, lt.segs[0].body.segs[0].v)):
+        raise Unsupported("count_awaitables_before of a list of this shape")
+    seg = lt.segs[0]
+    aw = Sc.bv(st.heap[seg.body.segs[0].v.oid].fields["aw"].t)
+    cnt, _sel = ex.filters.get(st, seg.ivar, seg.n, aw)
+    return [(st, SV(_mk_i(cnt(Sc.iv(k.t))), "int"))]
+
+
+assumed.LIBRARY["ghost.count_awaitables_before"] = _g_count_awaitables_before
+
+
+@contract("ahbicht.utility_functions:gather_if_necessary", prop=["C12"], name="GatherIfNecessaryLoop",
+          key="ahbicht.utility_functions:gather_if_necessary#loop")
+class GatherIfNecessaryLoop:
+    """own body, for a list of ANY length whose items are awaitable or not in any pattern: the result holds, position by
+    position, the awaited value of an awaitable and the item itself otherwise, and the index bookkeeping never leaves
+    the list of awaited results.  The loop-carried counter is handled by the loop invariant below; that the counter
+    addresses the right awaited result is the theory of filtered sequences (pyvc/listtheory.py, lemmas proved each run)."""
+    params = dict(results_and_awaitable_results=SeqOf(_mixed_item))
+    raises = {"Exception": None}
+    never_raises = ["IndexError"]
+    loop_invariants = {0: "inv_counter_is_the_number_of_awaitables_seen"}
+
+    def concretize(ex, s, m, values):
+        """counter-model -> [{"awaitable": bool, "value": result object}, ...] (made into real coroutines / plain
+        objects by call_native)"""
+        from pyvc.contracts import to_native
+        items = to_native(ex, s, m, values["results_and_awaitable_results"])
+        return {"results_and_awaitable_results": [{"awaitable": bool(d["aw"]), "value": d["val"]} for d in items]}
+
+    def call_native(args):
+        from ahbicht.utility_functions import gather_if_necessary
+
+        async def later(v):
+            return v
+        return gather_if_necessary([later(d["value"]) if d["awaitable"] else d["value"]
+                                    for d in args["results_and_awaitable_results"]])
+
+    def inv_counter_is_the_number_of_awaitables_seen(results_and_awaitable_results, awaited_results_index, iteration):
+        return awaited_results_index == count_awaitables_before(results_and_awaitable_results, iteration)
+
+    def post_positions_are_kept(results_and_awaitable_results, result):
+        return result == item_values(results_and_awaitable_results)
